@@ -2668,6 +2668,26 @@ func ruleOwnGlobalMethods(c *Ctx, r *R) {
 		ord := map[string]int{}
 		for _, b := range fn.Blocks {
 			for _, ins := range b.Instrs {
+				// a method *value* taken from the variable (`f := global.Method`) is a use of the object like a call
+				if mc, isMC := ins.(*ssa.MakeClosure); isMC {
+					if bf, okf := mc.Fn.(*ssa.Function); okf && bf.Synthetic != "" && len(mc.Bindings) == 1 {
+						if ld, okl := mc.Bindings[0].(*ssa.UnOp); okl && ld.Op == token.MUL {
+							if g, okg := ld.X.(*ssa.Global); okg && g.Pkg != nil && strings.HasPrefix(g.Pkg.Pkg.Path(), ottoPath) {
+								if nt := derefNamed(ld.Type()); nt != nil && nt.Obj().Pkg() != nil && !strings.HasPrefix(nt.Obj().Pkg().Path(), ottoPath) {
+									tname := nt.Obj().Pkg().Path() + "." + nt.Obj().Name()
+									n++
+									key := fmt.Sprintf("%s:%s@%s:method-value", g.Name(), tname, ssaFuncName(fn))
+									if why, ok := concurrentSafeTypes[tname]; ok {
+										r.ok(key, c.Pos(instrPos(mc)), why)
+									} else {
+										r.bad(key, c.Pos(instrPos(mc)), fmt.Sprintf("%s takes a method value of the package-level variable %s, a %s, and calls it later: that object is shared by every runtime in the process and its type is not known to be safe for concurrent use (a process-wide *rand.Rand behind Math.random: data race, and the same random numbers handed to two runtimes)", ssaFuncName(fn), g.Name(), tname))
+									}
+								}
+							}
+						}
+					}
+					continue
+				}
 				call, ok := ins.(ssa.CallInstruction)
 				if !ok {
 					continue
